@@ -456,6 +456,20 @@ func runPathsCLI(ctx context.Context, t fataler, r *evid.Recorder, c *PathCase) 
 		r.Fail(t, "path-targeting:image-input-failed", fmt.Sprintf("%s: the image input failed: exit %d: %s", desc, icode, ierr), c)
 		return
 	}
+	// the result for a source input is a function of the SET of paths (target files are documented to be
+	// taken sorted by path): the same flags in sorted order must give the same bytes
+	if sorted := sortedFlagArgs(dargs); strings.Join(sorted, "\x00") != strings.Join(dargs, "\x00") {
+		r.Class("paths-cli:flags-in-non-lexical-order")
+		scode, sout, serr := cli.run(ctx, sorted...)
+		if scode != 0 {
+			r.Fail(t, "path-targeting:source-input-failed", fmt.Sprintf("[buf %s]: exit %d: %s", strings.Join(relArgs(sorted, cli.dir), " "), scode, serr), c)
+			return
+		}
+		if sout != dout {
+			r.Fail(t, "path-targeting:depends-on-flag-order", fmt.Sprintf("[buf %s] and [buf %s] (same flags, sorted) print different images (%d vs %d bytes)", strings.Join(relArgs(dargs, cli.dir), " "), strings.Join(relArgs(sorted, cli.dir), " "), len(dout), len(sout)), c)
+			return
+		}
+	}
 	dpi, err := decodeImage([]byte(dout))
 	if err != nil {
 		r.Fail(t, "path-targeting:source-input-failed", fmt.Sprintf("%s: not an image: %v", desc, err), c)
@@ -517,6 +531,26 @@ func runPathsCLI(ctx context.Context, t fataler, r *evid.Recorder, c *PathCase) 
 	c.classify(r, targets)
 }
 
+// sortedFlagArgs returns args with the (--path|--exclude-path, value) pairs sorted.
+func sortedFlagArgs(args []string) []string {
+	var head, pairs []string
+	for i := 0; i < len(args); i++ {
+		if (args[i] == "--path" || args[i] == "--exclude-path") && i+1 < len(args) {
+			pairs = append(pairs, args[i]+"\x00"+args[i+1])
+			i++
+			continue
+		}
+		head = append(head, args[i])
+	}
+	sort.Strings(pairs)
+	out := append([]string{}, head...)
+	for _, p := range pairs {
+		kv := strings.SplitN(p, "\x00", 2)
+		out = append(out, kv[0], kv[1])
+	}
+	return out
+}
+
 func TestPathsCLI(t *testing.T) {
 	r := evid.R()
 	ctx := context.Background()
@@ -524,6 +558,9 @@ func TestPathsCLI(t *testing.T) {
 		src := genSrcNoSyntax(t, false)
 		c := &PathCase{Kind: "paths-cli", Src: src}
 		c.Paths, c.Exclude = genPathSets(t, src)
+		// flags in drawn, not sorted, order
+		c.Paths = rapid.Permutation(c.Paths).Draw(t, "path-order")
+		c.Exclude = rapid.Permutation(c.Exclude).Draw(t, "exclude-order")
 		c.Image = []string{"binpb", "binpb", "json", "txtpb.gz", "yaml.zst"}[rapid.IntRange(0, 4).Draw(t, "imgformat")]
 		runPathsCLI(ctx, t, r, c)
 	})
